@@ -281,7 +281,7 @@ fn check_single(a: &Key, sa: &Spec) -> Result<(), Fail> {
     Ok(())
 }
 
-fn case_triples(bytes: &[u8], _s: &[u8], ctx: &mut Ctx) -> Result<(), Fail> {
+pub fn case_triples(bytes: &[u8], _s: &[u8], ctx: &mut Ctx) -> Result<(), Fail> {
     let mut src = Source::new(bytes);
     let case = decode(&mut src);
     ctx.case(&case);
